@@ -2061,3 +2061,48 @@ pm_lerp_at!(k_pm_lerp_255, 255);
 // @ob id=K.pm_lerp_256 props=C18 kind=complete tier=quick timeout=600 fns=sw_composite::lerp
 // @+ desc="lerp(d,b,256) keeps r,g,b <= a for all premultiplied d,b (one of the 257 weights)"
 pm_lerp_at!(k_pm_lerp_256, 256);
+
+// ---------------------------------------------------------------- image source dispatch (C13 #4)
+fn shader_kind(s: &ShaderStorage) -> u8 {
+    match s {
+        ShaderStorage::None => 0, ShaderStorage::Solid(_) => 1, ShaderStorage::ImagePadAlpha(_) => 2, ShaderStorage::ImageRepeatAlpha(_) => 3,
+        ShaderStorage::TransformedNearestPadImageAlpha(_) => 4, ShaderStorage::TransformedNearestRepeatImageAlpha(_) => 5,
+        ShaderStorage::TransformedPadImageAlpha(_) => 6, ShaderStorage::TransformedRepeatImageAlpha(_) => 7,
+        ShaderStorage::TransformedPadImage(_) => 8, ShaderStorage::TransformedRepeatImage(_) => 9,
+        ShaderStorage::TransformedNearestPadImage(_) => 10, ShaderStorage::TransformedNearestRepeatImage(_) => 11,
+        _ => 12,
+    }
+}
+fn image_case(pad: bool, bilinear: bool, opaque: bool, integer: bool) -> u8 {
+    let data = [0xff102030u32; 4];
+    let img = Image { width: 2, height: 2, data: &data };
+    let ti = if integer { Transform::translation(3., -2.) } else { Transform::scale(0.5, 0.5) };
+    let src = Source::Image(img, if pad { ExtendMode::Pad } else { ExtendMode::Repeat }, if bilinear { FilterMode::Bilinear } else { FilterMode::Nearest }, Transform::translation(1., 1.));
+    let mut storage = ShaderStorage::None;
+    {
+        let _s = choose_shader(&ti, &src, if opaque { 1.0 } else { 0.5 }, &mut storage);
+    }
+    if let ShaderStorage::ImagePadAlpha(s) = &storage { assert!(s.offset_x == 4 && s.offset_y == -1 && s.alpha == if opaque { 256 } else { 129 }, "integer fast path: offsets = combined translation, alpha256"); }
+    if let ShaderStorage::ImageRepeatAlpha(s) = &storage { assert!(s.offset_x == 4 && s.offset_y == -1 && s.alpha == if opaque { 256 } else { 129 }, "integer fast path: offsets = combined translation, alpha256"); }
+    shader_kind(&storage)
+}
+// @ob id=K.choose_shader_image props=C13 kind=bounded:16-concrete-configurations tier=quick timeout=900 fns=choose_shader
+// @+ desc="choose_shader image arms on all 16 combinations of (Pad|Repeat, Bilinear|Nearest, alpha 1 | 0.5, combined transform integer translation | scale): the integer-translation fast path is taken exactly when inverse-CTM ∘ source transform is a pure integer translation, with offsets (tx,ty) and alpha256 = alpha byte + 1; otherwise the variant is the one named by (extend, filter, alpha != 255)"
+#[kani::proof]
+#[kani::unwind(6)]
+fn k_choose_shader_image() {
+    // integer translation -> fast paths whatever the filter / alpha
+    assert!(image_case(true, true, true, true) == 2 && image_case(true, false, false, true) == 2, "Pad + integer translation -> ImagePadAlpha");
+    assert!(image_case(false, true, true, true) == 3 && image_case(false, false, false, true) == 3, "Repeat + integer translation -> ImageRepeatAlpha");
+    assert!(image_case(true, true, false, true) == 2 && image_case(true, false, true, true) == 2 && image_case(false, true, false, true) == 3 && image_case(false, false, true, true) == 3, "fast path independent of filter and alpha");
+    // general transform
+    assert!(image_case(true, true, true, false) == 8, "Pad Bilinear opaque -> TransformedPadImage");
+    assert!(image_case(true, true, false, false) == 6, "Pad Bilinear alpha -> TransformedPadImageAlpha");
+    assert!(image_case(true, false, true, false) == 10, "Pad Nearest opaque -> TransformedNearestPadImage");
+    assert!(image_case(true, false, false, false) == 4, "Pad Nearest alpha -> TransformedNearestPadImageAlpha");
+    assert!(image_case(false, true, true, false) == 9, "Repeat Bilinear opaque -> TransformedRepeatImage");
+    assert!(image_case(false, true, false, false) == 7, "Repeat Bilinear alpha -> TransformedRepeatImageAlpha");
+    assert!(image_case(false, false, true, false) == 11, "Repeat Nearest opaque -> TransformedNearestRepeatImage");
+    assert!(image_case(false, false, false, false) == 5, "Repeat Nearest alpha -> TransformedNearestRepeatImageAlpha");
+    kani::cover!(true);
+}
